@@ -18,7 +18,8 @@ structure Closed (Inv : Node → Prop) : Prop where
   commitN : ∀ (s : Node) n, Inv s → Inv { s with log := s.log.commitN n }
   fsm : ∀ (s : Node) f, Inv s → Inv (s.withFsm f)
   changeConfigR : ∀ (s : Node) c, Inv s → Inv (s.changeConfigR c)
-  setCommitIndexR : ∀ (s : Node) i, Inv s → Inv (s.setCommitIndexR i).1
+  /-- the commit index only ever moves forward: every call site has checked `i > commitIndex` -/
+  setCommitIndexR : ∀ (s : Node) i, Inv s → i > s.commitIndex → Inv (s.setCommitIndexR i).1
   popOrder : ∀ (s : Node), Inv s → Inv s.popOrder
 
 namespace Closed
@@ -111,7 +112,7 @@ theorem block : ∀ fuel : Nat,
     (∀ s t c, Inv s → Inv (doChangeConfig fuel s t c)) ∧
     (∀ s t c, Inv s → Inv (checkConfigActions fuel s t c)) ∧
     (∀ s t c id, Inv s → Inv (checkConfigAction fuel s t c id)) ∧
-    (∀ s i, Inv s → Inv (setCommitIndexL fuel s i)) ∧
+    (∀ s i, Inv s → i > s.commitIndex → Inv (setCommitIndexL fuel s i)) ∧
     (∀ s, Inv s → Inv (onMajorityCommit fuel s)) := by
   intro fuel
   induction fuel with
@@ -196,10 +197,10 @@ theorem block : ∀ fuel : Nat,
       repeat' split
       all_goals first | exact hs | exact h1 _ | exact ihDC _ _ _ (h1 _)
     · -- setCommitIndexL
-      intro s i hs
+      intro s i hs hi
       unfold setCommitIndexL
       extract_lets s1 ready r s2 s3
-      have h2 : Inv s2 := h.setCommitIndexR _ i (h.commitLog_inv _ i hs)
+      have h2 : Inv s2 := h.setCommitIndexR _ i (h.commitLog_inv _ i hs) hi
       have h3 : Inv s3 := by
         unfold s3; split
         · exact ihCAs _ _ _ h2
@@ -213,12 +214,17 @@ theorem block : ∀ fuel : Nat,
       intro s hs
       unfold onMajorityCommit; dsimp only
       have h1 := h.panic s "nil.majorityMatchIndex" hs
-      repeat' split
-      all_goals first
-        | exact h.notifyFlr_inv _ (h.applyCommittedL_inv _ (ihSC _ _ hs))
-        | exact h.notifyFlr_inv _ (h.applyCommittedL_inv _ (ihSC _ _ h1))
-        | exact hs
-        | exact h1
+      have hc : ∀ site, (s.panic site).commitIndex = s.commitIndex := by
+        intro site; unfold Node.panic; split <;> rfl
+      split
+      · split
+        · rename_i hgt
+          exact h.notifyFlr_inv _ (h.applyCommittedL_inv _ (ihSC _ _ hs hgt.1))
+        · exact hs
+      · split
+        · rename_i hgt
+          exact h.notifyFlr_inv _ (h.applyCommittedL_inv _ (ihSC _ _ h1 (by rw [hc] at hgt; rw [hc]; exact hgt.1)))
+        · exact h1
 
 end Closed
 end Node
